@@ -456,6 +456,11 @@ func (i *insertExecutor) getPkValuesByColumn(ctx context.Context, execCtx *types
 			// pk auto generated while column exists and value is null (one row or several)
 			autoGenerated = true
 		}
+		if columnMeta, ok := meta.GetPrimaryKeyMap()[k]; ok && columnMeta.Autoincrement && len(tmpV) > 0 && isZeroKey(tmpV[0]) {
+			// 0 in an AUTO_INCREMENT column asks for the next value just as NULL does (unless the server runs
+			// with NO_AUTO_VALUE_ON_ZERO, under which 0 is not a usable key for this executor either way)
+			autoGenerated = true
+		}
 		if autoGenerated {
 			curPkValueMap, err := i.getPkValuesByAuto(ctx, execCtx)
 			if err != nil {
@@ -467,6 +472,33 @@ func (i *insertExecutor) getPkValuesByColumn(ctx context.Context, execCtx *types
 		}
 	}
 	return pkValuesMap, nil
+}
+
+// isZeroKey tells whether a key value of a statement is the number 0
+func isZeroKey(v interface{}) bool {
+	switch x := v.(type) {
+	case int:
+		return x == 0
+	case int8:
+		return x == 0
+	case int16:
+		return x == 0
+	case int32:
+		return x == 0
+	case int64:
+		return x == 0
+	case uint:
+		return x == 0
+	case uint8:
+		return x == 0
+	case uint16:
+		return x == 0
+	case uint32:
+		return x == 0
+	case uint64:
+		return x == 0
+	}
+	return false
 }
 
 func (i *insertExecutor) getPkValuesByAuto(ctx context.Context, execCtx *types.ExecContext) (map[string][]interface{}, error) {
